@@ -10,7 +10,9 @@
 (***************************************************************************)
 EXTENDS Naturals, Integers, Sequences, FiniteSets, TLC, Json
 
-CONSTANTS W, Vals, NoVal, MaxLen
+CONSTANTS W, Vals, NoVal, MaxLen,
+          Deep     \* TRUE: few keys, long idle stretches, commits right before rollbacks, rollbacks around the window edge - histories in which a
+                   \* key's versions lie more than W blocks apart and are rolled back more than once
 
 (* six keys in numeric order; the harness maps them to concrete keys that straddle byte boundaries *)
 KeySeq == <<"k1", "k2", "k3", "k4", "k5", "k6">>
@@ -34,9 +36,11 @@ Init == snap = <<>> /\ cur = Empty /\ hi = -1 /\ dur = [h |-> -1, map |-> Empty]
 Expect(m) == [i \in DOMAIN KeySeq |-> m[KeySeq[i]]]
 Push(step) == sched' = Append(sched, step)
 
+WriteKeys == IF Deep THEN {"k1", "k2"} ELSE KeySet
+
 Write ==
   /\ ~torn.on
-  /\ \E k \in {RandomElement(KeySet)}, v \in {RandomElement(Vals \cup {NoVal})} :
+  /\ \E k \in {RandomElement(WriteKeys)}, v \in {RandomElement(Vals \cup {NoVal})} :
        /\ cur' = [cur EXCEPT ![k] = v]
        /\ Push([op |-> "write", k |-> k, v |-> v, b |-> H + 1, reads |-> Expect(cur')])
   /\ hi' = IF H + 1 > hi THEN H + 1 ELSE hi
@@ -47,6 +51,17 @@ Advance ==
   /\ snap' = Append(snap, cur)
   /\ hi' = IF H + 1 > hi THEN H + 1 ELSE hi
   /\ Push([op |-> "advance", reads |-> Expect(cur)])
+  /\ UNCHANGED <<cur, dur, torn>>
+
+(* k blocks pass without a write *)
+RECURSIVE Rep(_, _)
+Rep(x, k) == IF k = 0 THEN <<>> ELSE <<x>> \o Rep(x, k - 1)
+Idle ==
+  /\ ~torn.on
+  /\ \E k \in {Pick(<<2, 5, 11, 12>>)} :
+       /\ snap' = snap \o Rep(cur, k)
+       /\ hi' = IF H + k > hi THEN H + k ELSE hi
+       /\ sched' = sched \o Rep([op |-> "advance", reads |-> Expect(cur)], k)
   /\ UNCHANGED <<cur, dur, torn>>
 
 Commit ==
@@ -113,6 +128,7 @@ Next ==
   IF torn.cap = -2 THEN FALSE
   ELSE IF Len(sched) >= MaxLen \/ (torn.on /\ ~(torn.cap >= 0 /\ torn.cap + W >= hi)) THEN Done
   ELSE IF torn.on THEN Recover
+  ELSE IF Deep THEN Write \/ Write \/ Advance \/ Advance \/ Idle \/ Idle \/ Commit \/ Commit \/ Rollback \/ Rollback \/ FallBack("reopen")
   ELSE Write \/ Write \/ Write \/ Advance \/ Advance \/ Commit \/ FallBack("clear") \/ FallBack("reopen") \/ Rollback
         \/ CrashInCommit \/ CrashInRollback
 
